@@ -856,3 +856,74 @@ Proof.
   split; [exact Hy|]. constructor; [|exact Hrest].
   rewrite Ey. symmetry. apply Z.mod_small. exact H0.
 Qed.
+
+(* ------------------------------------------------------------------ modular division *)
+
+Lemma divide_mod_eq a b m : 0 < m -> (m | a - b) -> a mod m = b mod m.
+Proof.
+  intros Hm [k Hk]. replace a with (b + k * m) by lia. apply Z.mod_add. lia.
+Qed.
+
+Lemma mod_eq_divide a b m : 0 < m -> a mod m = b mod m -> (m | a - b).
+Proof.
+  intros Hm H. apply Z.mod_divide; [lia|]. rewrite Zminus_mod, H, Z.sub_diag. apply Z.mod_0_l. lia.
+Qed.
+
+(* ModDiv: whatever is returned solves y * u = x (mod m), for odd and even moduli *)
+Lemma moddiv_sound x y m u : 0 < m -> moddiv x y m = Some u -> (y * u) mod m = x mod m.
+Proof.
+  intros Hm H. unfold moddiv in H. destruct (Z.odd m).
+  - destruct (y =? 0); [discriminate|].
+    destruct (modinv y m) as [yi|] eqn:Hi; [|discriminate]. injection H as <-.
+    apply modinv_sound in Hi; [|exact Hm]. destruct Hi as [_ Hi].
+    rewrite Z.mul_mod_idemp_r by lia.
+    replace (y * (x * yi)) with (x * (yi * y)) by ring.
+    rewrite Z.mul_mod by lia. rewrite Hi, Z.mul_1_r. apply Z.mod_mod. lia.
+  - cbv zeta in H.
+    set (xr := x mod m) in *. set (yr := y mod m) in *. set (d := Z.gcd yr m) in *.
+    assert (Hd : 0 < d).
+    { pose proof (Z.gcd_nonneg yr m) as Hn. fold d in Hn.
+      destruct (Z.eq_dec d 0) as [E|E]; [|lia]. unfold d in E. apply Z.gcd_eq_0_r in E. lia. }
+    destruct (xr mod d =? 0) eqn:Ex; [|discriminate]. apply Z.eqb_eq in Ex.
+    destruct (Z.gcd_divide_r yr m) as [m' Hm']. fold d in Hm'.
+    destruct (Z.gcd_divide_l yr m) as [a Ha]. fold d in Ha.
+    assert (Hb : xr = (xr / d) * d).
+    { pose proof (Z.div_mod xr d ltac:(lia)). lia. }
+    set (b := xr / d) in *.
+    assert (Emd : m / d = m') by (rewrite Hm'; apply Z.div_mul; lia).
+    assert (Ead : yr / d = a) by (rewrite Ha; apply Z.div_mul; lia).
+    rewrite Emd, Ead in H.
+    assert (Hm'pos : 0 < m') by nia.
+    assert (Hxy : (m | y * u - x) <-> (m | yr * u - xr)).
+    { assert (Hy : (m | y - yr)) by (apply mod_eq_divide; [lia|unfold yr; rewrite Z.mod_mod by lia; reflexivity]).
+      assert (Hx : (m | x - xr)) by (apply mod_eq_divide; [lia|unfold xr; rewrite Z.mod_mod by lia; reflexivity]).
+      destruct Hy as [k1 Hk1]. destruct Hx as [k2 Hk2].
+      split; intros [k Hk].
+      - exists (k - k1 * u + k2).
+        replace (yr * u - xr) with ((y * u - x) - (y - yr) * u + (x - xr)) by ring.
+        rewrite Hk, Hk1, Hk2. ring.
+      - exists (k + k1 * u - k2).
+        replace (y * u - x) with ((yr * u - xr) + (y - yr) * u - (x - xr)) by ring.
+        rewrite Hk, Hk1, Hk2. ring. }
+    apply divide_mod_eq; [exact Hm|]. apply Hxy.
+    destruct (modinv a m') as [s|] eqn:Hs.
+    + injection H as <-. apply modinv_sound in Hs; [|exact Hm'pos]. destruct Hs as [_ Hs].
+      (* a * ((b*s) mod m') - b divisible by m' *)
+      assert (Hd' : (m' | a * ((b * s) mod m') - b)).
+      { apply mod_eq_divide; [exact Hm'pos|].
+        rewrite Z.mul_mod_idemp_r by lia.
+        replace (a * (b * s)) with (b * (s * a)) by ring.
+        rewrite Z.mul_mod by lia. rewrite Hs, Z.mul_1_r. apply Z.mod_mod. lia. }
+      destruct Hd' as [k Hk]. exists k.
+      rewrite Ha, Hb, Hm'. 
+      replace (a * d * ((b * s) mod m') - b * d) with ((a * ((b * s) mod m') - b) * d) by ring.
+      rewrite Hk. ring.
+    + destruct (m' =? 1) eqn:E1; [|discriminate]. injection H as <-. apply Z.eqb_eq in E1.
+      subst m'. rewrite Z.mul_0_r.
+      (* m = d and d | xr with 0 <= xr < m: xr = 0 *)
+      assert (m = d) by lia.
+      assert (Hxr : 0 <= xr < m) by (apply Z.mod_pos_bound; exact Hm).
+      assert (xr = 0).
+      { assert (b = 0) by nia. subst b. lia. }
+      exists 0. lia.
+Qed.
